@@ -454,6 +454,8 @@ def _gen_population(rng, tpl, honour, max_files):
                 d = step * rng.choice([2, 3, 5])
             else:
                 d = dt.timedelta(microseconds=rng.randint(0, max(1, (2 * step) // US)))
+            if rng.random() < 0.15:                 # explicit zero-length coverage (end stamp == start stamp)
+                d = dt.timedelta(0)                 # next to files that last / cross midnight
             if not honour and res is not None and rng.random() < 0.5:
                 d = res + step * rng.choice([1, 2, 4])
             if cap is not None and d > cap:
@@ -481,6 +483,17 @@ def _gen_population(rng, tpl, honour, max_files):
         stars = [rng.choice(STAR_TEXTS) for _ in range(tpl.n_stars())]
         files.append(File(fid, t0, t1, users, stars))
         fid += 1
+        if ef and rng.random() < 0.2:          # ties on the start: same t0, another (or no) duration
+            d2 = rng.choice([dt.timedelta(0), dt.timedelta(microseconds=UNIT_US[eunit]), step, step * 2])
+            if res is not None and honour and d2 > res:
+                d2 = dt.timedelta(0)
+            if partial and d2 >= dt.timedelta(days=1):
+                d2 = dt.timedelta(0)
+            t1b = trunc_unit(t0 + d2, eunit)
+            if t1b >= t0 and t1b.year <= 9998 and (res is None or not honour or t1b - t0 <= res) \
+                    and not (partial and t1b - t0 >= dt.timedelta(days=1)):
+                files.append(File(fid, t0, t1b, users, stars))
+                fid += 1
         if tpl.users() and rng.random() < 0.3:     # same start time under another placeholder value
             u2 = dict(users)
             k = rng.choice(tpl.users())
